@@ -152,14 +152,16 @@ Symptoms == Allowed \cup {"crash", "oob", "ub", "alloc", "hang"}
 (* "No invention": every value a loader delivers was read from the document.   *)
 (* One token can feed at most two fields ("0.25" read as an integer yields 0    *)
 (* and leaves ".25" for the next field), hence the factor 2.                    *)
-Bound(s) == [values |-> 2 * NumTok(s), lines |-> NumLines(s) + 1]
+(* A catalogue list yields at most one entry per non-empty line.                *)
+Bound(s) == [values |-> 2 * NumTok(s), entries |-> NumLines(s)]
 
 Required(s) == [allowed |-> Allowed, bound |-> Bound(s)]
 
 (* An observation of the real loader on a case (all fields integers/strings):  *)
 (*   sym      one of Symptoms                                                    *)
 (*   values   number of values delivered as loaded data                         *)
-(*            (event file: 4 per event + 5 per particle; lists: entries)        *)
+(*            (event file: 4 per event + 5 per particle)                        *)
+(*   entries  number of entries of a loaded catalogue list                      *)
 (*   invalid  number of delivered objects failing the loader's OWN validity     *)
 (*            predicate (event::is_valid, p.d.f. value >= 0, first word of a    *)
 (*            non-comment line); what a later shoot computes from an accepted   *)
@@ -170,11 +172,12 @@ Accept(s, o) ==
   /\ o.invalid = 0
   /\ o.alien = 0
   /\ o.values <= Bound(s).values
+  /\ o.entries <= Bound(s).entries
 
 Why(s, o) ==
   IF o.sym \notin Allowed THEN o.sym
   ELSE IF o.invalid # 0 \/ o.alien # 0 THEN "garbage"
-  ELSE IF o.values > Bound(s).values THEN "invented"
+  ELSE IF o.values > Bound(s).values \/ o.entries > Bound(s).entries THEN "invented"
   ELSE "ok"
 
 -----------------------------------------------------------------------------
